@@ -199,8 +199,8 @@ def invAffineFromAttributes (pos : List Rat) (ori : List Rat) (ps : Spacing) (sb
 
 /-! ## tolerances -/
 
-/-- `_DEFAULT_EQUALITY_TOLERANCE` -/
-def eqTol : Rat := 1 / 100000
+/-- `_DEFAULT_EQUALITY_TOLERANCE` (translated constant) -/
+def eqTol : Rat := Gen.equalityTolerance
 /-- numpy's default `rtol` of `allclose` / `isclose` -/
 def npRtol : Rat := 1 / 100000
 
@@ -224,7 +224,12 @@ def areCoplanar (posA : V3) (oriA : Ori) (posB : V3) (oriB : Ori) : Except ErrKi
   let na ← normalVector oriA ('R', 'D') true
   let nb ← normalVector oriB ('R', 'D') true
   if 1 - rabs (na.dot nb) > eqTol then pure false
-  else pure (decide (rabs (posA.dot na - posB.dot na) < eqTol))
+  else
+    -- which position / normal each plane distance uses, and whether abs() is applied, is read from the source
+    let dist := fun (spec : Bool × Char × Char) =>
+      let d := (if spec.2.1 = 'a' then posA else posB).dot (if spec.2.2 = 'a' then na else nb)
+      if spec.1 then rabs d else d
+    pure (decide (rabs (dist Gen.coplanarDistance.1 - dist Gen.coplanarDistance.2) < eqTol))
 
 /-! ## patient orientations (letters) -/
 
